@@ -517,11 +517,17 @@ KIND = {"m": "m", "c": "c", "a": "a", "x": "x", "r": "r", "u": "u", "d": "d"}
 def run(ctx):
     L()
     vts = ["text", "bytes", "dictionary", "pickle"] if ctx.tier == "thorough" else ["text", "dictionary"]
+    for p in sorted(glob.glob(os.path.join(common.VERIF, "corpus", "C16", "*.json"))):
+        entry = json.load(open(p))
+        ctx.case("corpus:" + os.path.basename(p))
+        still = replay(ctx, entry["case"])
+        if still:
+            ctx.violation(entry.get("key", "corpus:" + os.path.basename(p)), still, entry["case"])
     jobs = [(b, s, vt) for b in BACKENDS for s in SCENARIOS for vt in vts]
     with multiprocessing.get_context("fork").Pool(16) as pool:
         results = pool.map(scenario, jobs, chunksize=1)
     lines, impl, cases = [], [], []
-    seen = set()
+    seen = {v["key"] for v in ctx.violations}
     for r in results:
         tag = "%s/%s/%s" % (r["backend"], r["scen"], r["vt"])
         if r.get("note"):
